@@ -23,7 +23,7 @@ CLI_TRUST = ("bin/gen.py parse_main: translator of analyse_state in src/main.rs 
              "range, reduction), re-run on every check; model/Cli.v gives the setters their meaning")
 
 FNS_TRUST = ("bin/rs2coq.py + the tables in bin/gen.py (FNS): translator of the crate's numeric formulas from the source text into "
-             "coq/gen/GenFns.v, re-run on every check; proofs/SourceFacts.v proves each equal to the hand-written model's definition")
+             "coq/gen/GenFns.v, re-run on every check; proofs/Src*.v prove each equal to the hand-written model's definition")
 
 PROPS = {
     "C09": dict(props_file="props/C09.v", engines=[("cli", dict(quick=4, thorough=60)), ("opt", dict(focus="C09", quick=160, thorough=4000)),
@@ -378,7 +378,8 @@ def tables_engine(prop, conf, params, tier, seed, broken_gate):
             ops.append(o)
             evals += 1
             nontriv.add((cli, k))
-            if any(x != 0 for x in bottom):
+            # (all zero as Matrix3::zeros() leaves it, or the (0, 0, 1) of a homogeneous matrix: the same affine map)
+            if any(x != 0 for x in bottom[:2]) or bottom[2] not in (0, 1):
                 findings.append(dict(engine="tables", properties=["C16"], case=case + " op=%d" % k,
                                      what="operation %d (%s) has a non-zero bottom row %s" % (k, g["ops_str"][k], bottom)))
         if len(ops) != len(spec):
